@@ -874,15 +874,23 @@ func (x *Exec) sameBacking(a, b value) bool {
 
 func (x *Exec) topSlice(v value) ([]value, bool) {
 	switch v := v.(type) {
+	case iface:
+		if v.t == nil {
+			return nil, false
+		}
+		return x.topSlice(v.v)
 	case sliceVal:
 		return v.a, true
 	case *value:
 		if v == nil {
 			return nil, false
 		}
-		if st, ok := (*v).(structure); ok && len(st) > 0 {
-			if sl, ok := st[0].(sliceVal); ok {
-				return sl.a, true
+		if st, ok := (*v).(structure); ok {
+			// the first slice-typed field of the struct (the implementation's element storage), whatever its name
+			for _, f := range st {
+				if sl, ok := f.(sliceVal); ok {
+					return sl.a, true
+				}
 			}
 		}
 	}
